@@ -291,11 +291,12 @@ Section CacheProofs.
     cache_sound sv c ->
     run_ops re_match re_replace ip_allow ideal sv c ops = ref_ops re_match re_replace ip_allow sv ops.
   Proof.
-    induction ops as [|[keep rq|sv'] t IH]; intros sv c Hc; cbn [run_ops ref_ops]; [reflexivity| |].
+    induction ops as [|[keep rq|sv'|m] t IH]; intros sv c Hc; cbn [run_ops ref_ops]; [reflexivity| | |].
     - pose proof (step_sound sv c keep rq Hc) as [H1 H2].
       destruct (step ideal sv c keep rq) as [o c'] eqn:E. cbn [fst snd] in *.
       rewrite H1, (IH sv c' H2). reflexivity.
     - apply IH, cache_sound_empty.
+    - apply IH. exact Hc.   (* routing does not read the mapper: the cache stays sound *)
   Qed.
 
   Theorem transparent_ops : forall sv ops,
@@ -365,7 +366,7 @@ Definition w_sv (with_header_entry : bool) : server :=
             ru_paths := (if with_header_entry
                          then [w_entry "/a" "A" [ {| hc_key := "X"; hc_values := ["v1"]; hc_regexp := "" |} ]]
                          else []) ++ [w_entry "/a" "B" []] |} ];
-     sv_backends := ["A"; "B"; "C"]; sv_body := 0%Z |}.
+     sv_backends := ["A"; "B"; "C"]; sv_body := 0%Z; sv_xff := false |}.
 
 Definition w_rq (host method path : string) (hs : list (string * string)) (ip : string) : request :=
   {| rq_host := host; rq_method := method; rq_path := path; rq_rawpath := ""; rq_headers := hs; rq_ip := ip; rq_body := 0%Z |}.
